@@ -15,6 +15,7 @@ import (
 	"pgregory.net/rapid"
 
 	"verifharness/lib/gen"
+	"verifharness/lib/resp"
 	"verifharness/lib/simkv"
 	"verifharness/lib/stats"
 )
@@ -229,10 +230,51 @@ func runFrame(t *rapid.T, engine string) {
 		default:
 			cands = [][]string{{"zclear", a}, {"zremrangebyrank", a, "0", "5001"}, {"zremrangebyscore", a, "-inf", "+inf"}, {"zremrangebyscore", a, "1", "5002"}, {"zremrangebylex", a, "-", "+"}, {"zmclear", a}}
 		}
+		cleared := false
 		for j := rapid.IntRange(1, 2).Draw(t, "nbigops"); j > 0; j-- {
 			c := cands[rapid.IntRange(0, len(cands)-1).Draw(t, "bigop")]
 			r := sim.Do(gen.WithNS(ns, c)...)
 			trace = append(trace, gen.Quote(c)+" -> "+r.String())
+			cleared = strings.HasSuffix(c[0], "clear") && !r.One().IsErr()
+		}
+		if cleared && rapid.Bool().Draw(t, "rebuild") {
+			// the cleared name is free again: the same collection can be built a second time, and
+			// nothing of the first one may be in its way or show through
+			// a little longer than the first one (which also held the few elements of the populate step)
+			const again = total + 8
+			var lastReply resp.Val
+			for part := 0; part < parts; part++ {
+				var c []string
+				switch fam {
+				case "list":
+					c = []string{"rpush", a}
+				case "hash":
+					c = []string{"hmset", a}
+				case "set":
+					c = []string{"sadd", a}
+				default:
+					c = []string{"zadd", a}
+				}
+				for i := part * again / parts; i < (part+1)*again/parts; i++ {
+					switch fam {
+					case "hash":
+						c = append(c, fmt.Sprintf("f%05d", i), "v")
+					case "zset":
+						c = append(c, fmt.Sprint(i), fmt.Sprintf("m%05d", i))
+					default:
+						c = append(c, fmt.Sprintf("e%05d", i))
+					}
+				}
+				lastReply = sim.Do(gen.WithNS(ns, c)...).One()
+				if lastReply.IsErr() {
+					t.Fatalf("after %q was cleared, building it again fails: %s\noperations:\n  %s", a, lastReply, strings.Join(trace, "\n  "))
+				}
+			}
+			cnt := map[string]string{"list": "llen", "hash": "hlen", "set": "scard", "zset": "zcard"}[fam]
+			if got := sim.Do(gen.WithNS(ns, []string{cnt, a})...).One(); got.Kind != 'i' || got.I != again {
+				t.Fatalf("after %q was cleared and built again with %d elements, %s answers %s\noperations:\n  %s", a, again, strings.ToUpper(cnt), got, strings.Join(trace, "\n  "))
+			}
+			trace = append(trace, fmt.Sprintf("%s %q built again with %d elements", fam, a, total))
 		}
 	} else {
 		n := rapid.IntRange(1, 20).Draw(t, "nops")
